@@ -4,6 +4,7 @@ package tlog
 
 import (
 	"crypto/sha256"
+	"unicode/utf8"
 )
 
 func init() {
@@ -134,6 +135,7 @@ func VerifC09RecordText() {
 	vAssume(id >= 0 && id < int64(vParam("maxid", 100000)))
 	text := vBytes("text", 1+vChoice("len", vParam("maxlen", 4)))
 	msg, err := FormatRecord(id, text)
+	vAssert("accepted==valid-text", (err == nil) == vRefValidRecordText(text))
 	if err != nil {
 		vReach("invalid-text")
 		return
@@ -144,6 +146,27 @@ func VerifC09RecordText() {
 	vAssert("id", id2 == id)
 	vAssert("text", string(text2) == string(text))
 	vAssert("rest-empty", len(rest) == 0)
+}
+
+// vRefValidRecordText: the documented rule for record text: valid UTF-8, no
+// ASCII control characters other than newline, a terminating newline, and no
+// blank lines.
+func vRefValidRecordText(text []byte) bool {
+	if len(text) == 0 || text[len(text)-1] != '\n' {
+		return false
+	}
+	if !utf8.Valid(text) {
+		return false
+	}
+	for i := 0; i < len(text); i++ {
+		if text[i] < 0x20 && text[i] != '\n' {
+			return false
+		}
+		if i > 0 && text[i] == '\n' && text[i-1] == '\n' {
+			return false
+		}
+	}
+	return true
 }
 
 func VerifC09Twin() {
